@@ -283,7 +283,15 @@ func runC02(p *core.Prog, r *core.Report) {
 			// atomics are made for that; tables that are only indexed are not touched here.
 			{
 				var glob []string
+				scope := map[*ssa.Function]bool{}
 				for fn := range reachableFrom(p, handle) {
+					scope[fn] = true
+				}
+				// …and the inlined view of Handle: a getter that returns the address of a package variable is seen in place
+				for _, fn := range viewFuncs(p, p.Inl(handle)) {
+					scope[fn] = true
+				}
+				for fn := range scope {
 					if rootFn(fn).Pkg != handle.Pkg {
 						continue
 					}
@@ -341,6 +349,20 @@ func runC02(p *core.Prog, r *core.Report) {
 								}
 								if g := isShared(a); g != nil {
 									glob = append(glob, "package variable "+g.Name()+" is handed to "+short(sx.CalleeName(x))+" in "+fnName(fn)+" at "+p.Pos(in.Pos()))
+									continue
+								}
+								// …or reaches the call through a helper's result (`func (h) prefix() *[]byte { return &rootPrefix }`)
+								if ptrTo(a.Type()) != nil {
+									for o := range sx.Origins(a) {
+										if !strings.HasPrefix(o, "global:") {
+											continue
+										}
+										if gm, ok := handle.Pkg.Members[strings.TrimPrefix(o, "global:")].(*ssa.Global); ok {
+											if g := isShared(gm); g != nil {
+												glob = append(glob, "package variable "+g.Name()+" reaches "+short(sx.CalleeName(x))+" as a pointer in "+fnName(fn)+" at "+p.Pos(in.Pos()))
+											}
+										}
+									}
 								}
 							}
 						}
@@ -617,6 +639,19 @@ func levelGated(p *core.Prog, fn *ssa.Function, handle ssa.CallInstruction) (boo
 		}
 	})
 	if gated {
+		// the level that is gated and recorded is the one the caller gave (a parameter) or a constant of the method — not
+		// a level computed from it (rounded, clamped, mapped): that would let a record below the threshold through
+		switch x := sx.Unspill(recLevel).(type) {
+		case *ssa.Parameter, *ssa.Const:
+		case *ssa.Convert:
+			if _, isP := sx.Unspill(x.X).(*ssa.Parameter); !isP {
+				if _, isC := x.X.(*ssa.Const); !isC {
+					return false, "the level tested and recorded is " + sx.ValPath(recLevel) + ", computed from the caller's level rather than the level itself: a level just below the threshold can be turned into one that passes it"
+				}
+			}
+		default:
+			return false, "the level tested and recorded is " + sx.ValPath(recLevel) + ", computed from the caller's level rather than the level itself: a level just below the threshold can be turned into one that passes it"
+		}
 		return true, "reachable only through the true edge of " + recv + ".Enabled(" + sx.ValPath(recLevel) + ")"
 	}
 	if len(msgs) > 0 {
@@ -927,6 +962,33 @@ func releasedOnce(p *core.Prog, fn *ssa.Function, g *ssa.Call, releasers map[*ss
 			if a != b && sx.ReachInstr(fn, a, b, sx.Cut{Instrs: map[ssa.Instruction]bool{g: true}}) {
 				return false, "the buffer can be released twice (" + p.Pos(a.Pos()) + " then " + p.Pos(b.Pos()) + ")"
 			}
+		}
+	}
+	// nothing uses the buffer after an explicit release: the pool may hand it to another goroutine at once (a slice
+	// header copied before the release — `line := *buf` — still points into the recycled array)
+	for a := range rel {
+		if _, isDefer := a.(*ssa.Defer); isDefer {
+			continue
+		}
+		late := ""
+		sx.WalkFrom(fn, a, sx.Cut{Instrs: map[ssa.Instruction]bool{g: true}}, func(in ssa.Instruction) bool {
+			if in == a {
+				return true
+			}
+			c, ok := in.(ssa.CallInstruction)
+			if !ok {
+				return true
+			}
+			for _, arg := range sx.Args(c) {
+				org := sx.Origins(arg)
+				if org["call:"+sx.FuncName(sx.StaticCallee(g))] {
+					late = short(sx.CalleeName(c)) + " at " + p.Pos(in.Pos())
+				}
+			}
+			return true
+		})
+		if late != "" {
+			return false, "the buffer's bytes are still used after it went back to the pool at " + p.Pos(a.Pos()) + " (" + late + "): another goroutine can obtain the buffer and format its own record over the line being written"
 		}
 	}
 	if deferred {
